@@ -26,7 +26,7 @@ from checks.c05 import payload
 PROP = "C17"
 LEVEL = "exploration"
 RULE = ("seeded scenarios: master + 1..4 joiners (quick) / up to 12 with level-1 slots exhausted so that joins go through relays "
-        "(thorough), distinct random IDs 1..255, start offsets 0..300 ms, per-node MCU jitter; per joiner renew_address() then a "
+        "(thorough), in a third of the small runs a master table pre-filled with static leases that leave one free slot per level along a seeded chain (joins down to level 4, full parents), distinct random IDs 1..255, start offsets 0..300 ms, per-node MCU jitter; per joiner renew_address() then a "
         "seeded sequence of lookup_address / lookup_node_id (known, unknown, 0, None), send(to id), check_connection(both modes), "
         "release_address, re-join; 20 % of runs inject packet/ACK loss and enforce only the `safe` clause. Non-trivial: at least "
         "two nodes joined or a join went through a relay; distinct = distinct abstract event sequences")
@@ -38,7 +38,7 @@ CLAUSES = {"join": "valid distinct address recorded under its ID within the time
            "lookup": "master's current mapping, trivial answers, -2 / -1 codes", "undisturbed": "asking never disturbs the master",
            "release": "back to the unassigned address, lease freed", "connected": "check_connection() True exactly for connected nodes",
            "safe": "with loss: no exception, termination, valid-or-None"}
-PROBES = ["collision", "isolated_call_evaluated", "join_via_relay"]
+PROBES = ["collision", "serialised_call_checked", "join_via_relay", "join_at_level_4"]
 SHRINK_KEYS = ("joiners", "faults")
 CHUNK = 2
 MAX_INCONCLUSIVE = 0.03
@@ -96,7 +96,34 @@ def make(i, base_seed, tier):
         ar = stream(seed, "air")
         p = rng.choice([0.02, 0.05, 0.15])
         faults = [{"n": k} for k in range(6000) if ar.random() < p]
-    return {"seed": seed, "joiners": joiners, "lossy": lossy, "faults": faults, "master_knobs": dict(knobs(), stall_prob=0.0), "big": big}
+    # half of the small runs are serialised by the orchestrator (one API call at a time, network quiet in between): these are
+    # the runs in which the liveness-flavoured clauses are enforced; the others exercise concurrency
+    serial = (not big) and rng.random() < 0.5
+    # pre-filled master table (static leases through the public set_address(), as a DHCP file would leave them): only one
+    # slot per level stays free along a seeded chain, so that joins must go through relays down to level 4 and meet full parents
+    prefill = {}
+    if not big and rng.random() < 0.35:
+        fake = [x for x in range(1, 256) if x not in ids]
+        rng.shuffle(fake)
+        d = [rng.randint(1, 5), rng.randint(1, 4), rng.randint(1, 4)]
+        if rng.random() < 0.3:
+            d = [4, 4, 4]      # the chain whose next child would be the unassigned-node address 0o4444
+        chain = [d[0], d[0] | (d[1] << 3), d[0] | (d[1] << 3) | (d[2] << 6)]
+        for a in [x for x in range(1, 6) if x != d[0]]:
+            prefill[fake.pop()] = a
+        depth = 3 if d == [4, 4, 4] else rng.randint(1, 3)
+        for lv in range(1, depth):
+            for k in range(1, 5):
+                a = chain[lv - 1] | (k << (3 * lv))
+                if a != chain[lv]:
+                    prefill[fake.pop()] = a
+        for j in joiners:
+            # relays must stay where they are: the free slots of such a run are only reachable through them
+            j["ops"] = [op for k, op in enumerate(j["ops"]) if k == 0 or op["op"] not in ("release", "renew")]
+            for op in j["ops"]:
+                if op["op"] == "renew":
+                    op["timeout"] = 10.0
+    return {"seed": seed, "serial": serial, "prefill": {str(k): v for k, v in prefill.items()}, "joiners": joiners, "lossy": lossy, "faults": faults, "master_knobs": dict(knobs(), stall_prob=0.0), "big": big}
 
 
 def run(scn):
@@ -123,8 +150,11 @@ def _run(scn, w, res):
             if not history or history[-1][1] != t:
                 history.append((sim.now, t))
     net = Net(w, post_call=post_call)
-    net.add("M", "master", 0, knobs=scn["master_knobs"])
-    history.append((sim.now, {}))
+    mnc = net.add("M", "master", 0, knobs=scn["master_knobs"])
+    prefill = {int(k): v for k, v in (scn.get("prefill") or {}).items()}
+    for k, v in prefill.items():
+        mnc.node.set_address(k, v)
+    history.append((sim.now, dict(prefill)))
     for j in scn["joiners"]:
         net.add(j["id"], j["cls"], j["id"], knobs=j["knobs"])
     net.start()
@@ -166,7 +196,22 @@ def _run(scn, w, res):
                 return node.check_connection(2, op["ping"])
         return do
 
-    for j in scn["joiners"]:
+    if scn.get("serial"):
+        queues = {j["id"]: [op for op in j["ops"] if op["op"] != "pause"] for j in scn["joiners"]}
+        order = [j["id"] for j in scn["joiners"]]
+        k = 0
+        while any(queues.values()):
+            nid = order[k % len(order)]
+            k += 1
+            if not queues[nid]:
+                continue
+            op = queues[nid].pop(0)
+            j = next(x for x in scn["joiners"] if x["id"] == nid)
+            c = net.post(nid, op["op"], mk(j, op))
+            net.wait(c, timeout=120 * SEC, step=MS)
+            net.wait_quiet(quiet=10 * MS, timeout=2 * SEC, step=MS)
+            cmds.setdefault(nid, []).append((op, c))
+    for j in ([] if scn.get("serial") else scn["joiners"]):
         lst = []
         lst.append((None, net.hold(j["id"], j["offset_ms"] * MS)))
         for op in j["ops"]:
@@ -191,10 +236,47 @@ def _run(scn, w, res):
         air (aftermath of earlier calls included): the network is best-effort under concurrent traffic"""
         if any(n2 != nid_ and a < c_.t1 and b > c_.t0 for (n2, a, b) in spans):
             return False
+        me = addr_during(nid_, c_.t0, c_.t0)
+        if me is None or me == 0o4444 or not chain_alive(me, c_.t0 - 5 * MS, c_.t1):
+            return False     # orphaned: a relay between this node and the master has left
         for t in w.air.trace:
             if not t["ack"] and c_.t0 - 5 * MS <= t["t0"] <= c_.t1 and (len(t["data"]) < 8 or t["data"][6] not in types):
                 return False
-        sim.count("isolated_call_evaluated")     # reach probe: how often the liveness-flavoured clauses were really enforced
+        return True
+
+    timeline = {}   # node id -> [(time, address)] from the results of its own renew/release calls
+    for nid2, lst2 in cmds.items():
+        tl = [(0, 0o4444)]
+        for op2, c2 in lst2:
+            if op2 is None or not c2.done or c2.exc is not None:
+                continue
+            if op2["op"] == "renew":
+                tl.append((c2.t0, 0o4444))
+                if c2.result[0] is not None:
+                    tl.append((c2.t1, c2.result[0]))
+            elif op2["op"] == "release" and c2.result is True:
+                tl.append((c2.t0, None))      # in transition
+                tl.append((c2.t1, 0o4444))
+        timeline[nid2] = tl
+
+    def addr_during(nid2, t0, t1):
+        """the node's address if it was constant over [t0, t1], else None"""
+        tl = timeline.get(nid2, [])
+        cur = None
+        for (t, a) in tl:
+            if t <= t0:
+                cur = a
+            elif t <= t1:
+                return None
+        return cur
+
+    def chain_alive(addr, t0, t1):
+        """every ancestor of `addr` below the master is the constant address of some running node during [t0, t1]"""
+        a = netref.parent(addr) if addr else None
+        while a:
+            if not any(addr_during(n2, t0, t1) == a for n2 in timeline):
+                return False
+            a = netref.parent(a)
         return True
 
     def answer_arrived(nc_, c_, my_addr=None):
@@ -221,6 +303,13 @@ def _run(scn, w, res):
         for (t, e, tb) in nc.update_exc:
             res.add("undisturbed" if key == "M" else "safe", {"kind": "update_raised", "exc": type(e).__name__, "who": "master" if key == "M" else "node"},
                     "update() on %s raised %r\n%s" % (key, e, tb[-1500:]))
+    for (t, tab) in history:
+        foreign = {k: v for k, v in tab.items() if k not in ids and prefill.get(k) != v}
+        lost = [k for k in prefill if tab.get(k) != prefill[k]]
+        if foreign or lost:
+            res.add("undisturbed", {"kind": "foreign_lease" if foreign else "static_lease_lost"},
+                    "the master's table held %r for IDs that never asked (joiners %r); static leases changed: %r" % ({k: oct(v) for k, v in foreign.items()}, ids, lost))
+            break
     joined = 0
     via_relay = False
     for nid, lst in cmds.items():
@@ -238,6 +327,8 @@ def _run(scn, w, res):
                 res.add("safe" if lossy else ("join" if o == "renew" else "lookup"), {"kind": "call_raised", "op": o, "exc": type(c.exc).__name__}, "%s on node id %d raised %r\n%s" % (o, nid, c.exc, c.tb[-1500:]))
                 continue
             r = c.result
+            if scn.get("serial") and not lossy:
+                sim.count("serialised_call_checked")   # reach probe: calls for which the liveness-flavoured clauses are enforced
             if o == "renew":
                 addr, dur = r
                 if addr is not None and (not netref.valid_addr_doc(addr) or addr in (0, 0o4444)):
@@ -255,6 +346,8 @@ def _run(scn, w, res):
                 if netref.level(addr) > 1:
                     via_relay = True
                     sim.count("join_via_relay")
+                if netref.level(addr) == 4:
+                    sim.count("join_at_level_4")
                 if not any(tab.get(nid) == addr for tab in tables(c.t0, c.t1 + 50 * MS)):
                     res.add("join", {"kind": "not_in_master_table"}, "id %d was given %o but the master's table held %r for it" % (nid, addr, [oct(t[nid]) if nid in t else None for t in tables(c.t0, c.t1)][-1]))
                 continue
@@ -345,7 +438,7 @@ def _run(scn, w, res):
             seen[a] = nid
     res.nontrivial = joined >= 2 or via_relay or (joined >= 1 and len(ids) == 1)
     res.sample = {"ids": ids, "lossy": lossy, "ops": {j["id"]: [o["op"] for o in j["ops"]] for j in scn["joiners"]},
-                  "final_table": {k: oct(v) for k, v in final.items()}, "joined": joined, "via_relay": via_relay}
+                  "final_table": {k: oct(v) for k, v in final.items() if k in ids}, "static_leases": len(prefill), "serial": scn.get("serial"), "joined": joined, "via_relay": via_relay}
     return net
 
 
